@@ -224,6 +224,8 @@ CrUpdate(NE, NI) ==
                   /\ (IF pods[y.p].rdma THEN EniRdma(NE, y.e) ELSE (conf.rdma > 0 => ~EniRdma(NE, y.e)))   \* RDMA pods on RDMA interfaces only and vice versa,
                   /\ (Fam(y.a) = 4 => pods[y.p].r4 \in {0, y.a})                                     \* and never another address than the one reported
                   /\ (Fam(y.a) = 6 => pods[y.p].r6 \in {0, y.a}))
+    /\ G("C02", \A y \in Bound(NI) : PodLive(y.p) /\ Doomed(EniSt(NE, y.e)) => Doomed(EniSt(crE, y.e)))   \* an interface is not given up (marked for
+                                                                                                      \*  deletion) while an address on it is bound to a pod that exists
     /\ G("C02", \A y \in Bound(NI) : IsNew(y) =>                                                     \* an address that another existing pod reports is not given away
             \A q \in Pods \ {y.p} : PodLive(q) => y.a \notin {pods[q].r4, pods[q].r6})
     /\ G("C02", wr # "fail" => \A q \in Pods : PodLive(q) => \A a \in {pods[q].r4, pods[q].r6} \ {0} :    \* re-adoption: a reported address that the record holds
